@@ -218,4 +218,39 @@ PROPS = {
             {"name": "interleavings", "run": "TestUseCaseInterleavings", "kind": "plain"},
         ],
     },
+    "C12": {
+        "pkg": "c12",
+        "rule": ("rapid draws 1..3 approval callbacks, 1..3 authorised writes pending together from 2 peers (the single binding is handed over before "
+                 "each write; equal message counters on different peers occur), a verdict in {approve, deny, silent} per (write, callback), a delivery "
+                 "order (permutation) and a subset of verdicts delivered after the 25 ms time-out. Each write is judged from its own verdict row: applied "
+                 "(and success result iff ack) iff every callback approved before the time-out, otherwise exactly one error result and unchanged data; "
+                 "each callback invoked exactly once per write with that write's message. A case whose early deliveries took longer than half the "
+                 "time-out is discarded and counted. Window test: the deciding delivery is parked at the yield point between timer lookup and stop "
+                 "until the time-out's error result has been seen (all placements: callbacks x parked delivery x verdict). Non-trivial: >=2 writes "
+                 "pending together or a verdict after / racing the time-out. Distinct by (callbacks, verdict rows, delivery order)."),
+        "assumptions": ["real time: 25 ms approval time-out, event-driven waiting up to 1 s; slow-harness cases are discarded, never judged",
+                        "pending writes are authorised when they arrive; the binding may change afterwards"],
+        "runs": [
+            {"name": "matrix", "run": "TestApprovalMatrix", "kind": "rapid", "checks": {Q: 640, T: 16000}, "shards": {Q: 8, T: 16}, "shrinktime": "15s"},
+            {"name": "window", "run": "TestApprovalVsTimeout", "kind": "plain"},
+        ],
+    },
+    "C13": {
+        "pkg": "c13",
+        "rule": ("rapid state machine on a bare Sender (NewSender + capture writer) and on a connected peer's sender: Request (3 destinations x 4 commands "
+                 "x classifiers), responses (direct and as inbound datagrams) with known / unknown / already answered references, Notify, Reply, Result, "
+                 "Write, Subscribe, Bind, Unsubscribe, Unbind, DatagramForMsgCounter lookups, bursts of >20 / >100 unanswered requests and notifies; the "
+                 "reference model is the complete wire log (counters increasing, withheld only while an identical request is unanswered and returning its "
+                 "counter, different requests always written, response re-enables, last 100 notifies retrievable with the written datagram); bounded "
+                 "memory for N in {50,200,800}; 205 enumerated notify-window scenarios; concurrent rounds with 8-16 goroutines (distinct counters, count "
+                 "= successful calls). Non-trivial: a withheld request, an eviction, or a lookup between notifies. Distinct by full history hash."),
+        "assumptions": ["classifier, sender address and ack are not part of 'identical request' (same destination, same command)",
+                        "'withheld' is never required (the statement is an only-if)"],
+        "runs": [
+            {"name": "sequential", "run": "TestSenderSequential", "kind": "rapid", "checks": {Q: 1200, T: 50000}, "shards": {Q: 4, T: 16}},
+            {"name": "concurrent", "run": "TestSenderConcurrent", "kind": "rapid", "checks": {Q: 200, T: 5000}, "shards": {Q: 1, T: 4}},
+            {"name": "bounded", "run": "TestSenderBounded", "kind": "rapid", "checks": {Q: 40, T: 600}, "shards": {Q: 1, T: 4}},
+            {"name": "window", "run": "TestNotifyWindow", "kind": "plain"},
+        ],
+    },
 }
